@@ -19,7 +19,7 @@ int main(int argc, char** argv) {
     static const Rat GRID[3][2] = {{{1, 4}, {2, 3}}, {{3, 10}, {3, 5}}, {{1, 5}, {7, 10}}};
     Run run; run.cfg = "h10a:" + cellname + ":" + pbcs + ":n" + std::to_string(n) + ":ax" + std::to_string(ax) + ":" + argv[5];
     auto& En = E(); z3::context& c = En.ctx;
-    int o1 = (ax + 1) % 3, o2 = (ax + 2) % 3;
+    int o1 = ax < 3 ? (ax + 1) % 3 : 0, o2 = ax < 3 ? (ax + 2) % 3 : 0;
     run.explore([&]() {
         py::array_t<SymD> pos({n, 3}), cell({3, 3}), disp({n, n, 3}), dist({n, n}), fact({n, n, 3}); py::array_t<bool> pbc({3});
         auto cm = cell.mutable_unchecked<2>(); auto pm = pos.mutable_unchecked<2>(); auto bm = pbc.mutable_unchecked<1>();
@@ -32,7 +32,12 @@ int main(int argc, char** argv) {
         for (int l = 0; l < n; l++) {
             s.push_back(c.real_const(("s" + std::to_string(l)).c_str())); En.assume(s[l] >= 0 && s[l] < 1);
             f[l] = {c.real_val(0), c.real_val(0), c.real_val(0)};
-            f[l][ax] = s[l]; f[l][o1] = rq(GRID[l % 3][0]); f[l][o2] = rq(GRID[l % 3][1]);
+            if (ax < 3) { f[l][ax] = s[l]; f[l][o1] = rq(GRID[l % 3][0]); f[l][o2] = rq(GRID[l % 3][1]); }
+            else {   // ax = 10 + k: two symbolic coordinates per atom (all but axis k)
+                int kfix = ax - 10, a1 = (kfix + 1) % 3, a2 = (kfix + 2) % 3;
+                z3::expr s2 = c.real_const(("u" + std::to_string(l)).c_str()); En.assume(s2 >= 0 && s2 < 1);
+                f[l][a1] = s[l]; f[l][a2] = s2; f[l][kfix] = rq(GRID[l % 3][0]);
+            }
             for (int j = 0; j < 3; j++) { R[l].push_back((f[l][0] * C[0][j] + f[l][1] * C[1][j] + f[l][2] * C[2][j]).simplify()); pm(l, j) = SymD(R[l][j]); }
         }
         for (int i = 0; i < n; i++) for (int j = 0; j < n; j++) { dm(i, j) = mkinf(); for (int k = 0; k < 3; k++) { Dm(i, j, k) = mkinf(); Fm(i, j, k) = mkinf(); } }
